@@ -2,6 +2,7 @@ package scen
 
 import (
 	"context"
+	"encoding/json"
 	"errors"
 	"fmt"
 	"net/http"
@@ -61,6 +62,12 @@ type simSource struct {
 	content map[string]*recVer // by provider name
 	nAll    int
 	nOne    int
+	// HTTP mode: the cache talks to the real pcache HTTP source, whose
+	// requests reach this source's handler through the simulated network.
+	real    pcache.ProviderSource
+	curDir  srcDirective // outcome drawn for the call in progress
+	served  []*recVer    // what the handler wrote for the call in progress
+	handled bool
 }
 
 type srcDirective struct {
@@ -101,6 +108,9 @@ func (s *simSource) FetchAll(ctx context.Context) ([]*model.ProviderInfo, error)
 		s.d.r.Logf(s.name, "FetchAll -> cancelled")
 		return nil, ctx.Err()
 	}
+	if s.real != nil {
+		return s.httpFetchAll(ctx, call, dir)
+	}
 	if dir.fail {
 		call.failed = true
 		s.d.r.Fault("source-error-" + srcErrorNames[dir.kind])
@@ -134,6 +144,9 @@ func (s *simSource) Fetch(ctx context.Context, pid peer.ID) (*model.ProviderInfo
 		call.cancelled = true
 		return nil, ctx.Err()
 	}
+	if s.real != nil {
+		return s.httpFetch(ctx, call, dir, pid, name)
+	}
 	if dir.fail {
 		call.failed = true
 		s.d.r.Fault("source-error-" + srcErrorNames[dir.kind])
@@ -152,6 +165,159 @@ func (s *simSource) Fetch(ctx context.Context, pid peer.ID) (*model.ProviderInfo
 	call.recs = []*recVer{rec}
 	s.d.r.Logf(s.name, "Fetch(%s) -> %s", name, rec)
 	return rec.info, nil
+}
+
+// --- HTTP mode ---------------------------------------------------------------
+
+// httpFaultNames are the ways a source endpoint fails in HTTP mode; the
+// simulated network applies them to the response of the real handler.
+var httpFaultNames = []string{"status-500", "status-503", "reset-before", "reset-mid", "truncated-body", "stall-until-client-timeout", "empty-body", "status-404"}
+
+const pcHTTPTimeout = 20 * time.Second
+
+func (s *simSource) sameInfo(got *model.ProviderInfo, v *recVer) bool {
+	return got != nil && got.AddrInfo.ID == v.info.AddrInfo.ID && got.Lag == v.info.Lag && got.LastAdvertisementTime == v.info.LastAdvertisementTime
+}
+
+func (s *simSource) httpFetchAll(ctx context.Context, call *srcCall, dir srcDirective) ([]*model.ProviderInfo, error) {
+	s.curDir, s.served, s.handled = dir, nil, false
+	if dir.fail {
+		s.d.r.Fault("source-http-" + httpFaultNames[dir.kind])
+	}
+	s.d.httpOpen++
+	out, err := s.real.FetchAll(ctx)
+	s.d.httpOpen--
+	s.d.lastSrcRel = time.Now()
+	s.curDir = srcDirective{}
+	if err != nil {
+		call.failed = true
+		s.d.r.Logf(s.name, "FetchAll over HTTP -> error (fault=%v)", dir.fail)
+		if !dir.fail {
+			s.d.r.Violate(s.d.mode+".httpsource", "FetchAll through the HTTP source failed although the endpoint answered normally: %v", err)
+		}
+		return nil, err
+	}
+	if dir.fail && dir.kind != 4 { // a cut that only removes the trailing newline leaves a complete document
+		s.d.r.Violate(s.d.mode+".httpsource", "FetchAll through the HTTP source succeeded although the endpoint failed (%s)", httpFaultNames[dir.kind])
+	}
+	if len(out) != len(s.served) {
+		s.d.r.Violate(s.d.mode+".httpsource", "FetchAll through the HTTP source returned %d records, the endpoint served %d", len(out), len(s.served))
+	}
+	var desc []string
+	for i, v := range s.served {
+		if i < len(out) && !s.sameInfo(out[i], v) {
+			s.d.r.Violate(s.d.mode+".httpsource", "FetchAll through the HTTP source: record #%d differs from what the endpoint served (%s)", i, v)
+		}
+		desc = append(desc, v.String())
+	}
+	call.recs = s.served
+	s.d.r.Logf(s.name, "FetchAll over HTTP -> [%s]", strings.Join(desc, " "))
+	return out, nil
+}
+
+func (s *simSource) httpFetch(ctx context.Context, call *srcCall, dir srcDirective, pid peer.ID, name string) (*model.ProviderInfo, error) {
+	s.curDir, s.served, s.handled = dir, nil, false
+	if dir.fail {
+		s.d.r.Fault("source-http-" + httpFaultNames[dir.kind])
+	}
+	s.d.httpOpen++
+	out, err := s.real.Fetch(ctx, pid)
+	s.d.httpOpen--
+	s.d.lastSrcRel = time.Now()
+	s.curDir = srcDirective{}
+	switch {
+	case err != nil:
+		var ae *apierror.Error
+		if errors.As(err, &ae) && ae.Status() == http.StatusNotFound {
+			call.notFound = true
+		} else {
+			call.failed = true
+		}
+		s.d.r.Logf(s.name, "Fetch(%s) over HTTP -> error (fault=%v)", name, dir.fail)
+		if !dir.fail && len(s.served) > 0 {
+			s.d.r.Violate(s.d.mode+".httpsource", "Fetch(%s) through the HTTP source failed although the endpoint served the record: %v", name, err)
+		}
+		return nil, err
+	case out == nil:
+		call.notFound = true
+		s.d.r.Logf(s.name, "Fetch(%s) over HTTP -> nothing (fault=%v)", name, dir.fail)
+		if !dir.fail && len(s.served) > 0 {
+			s.d.r.Violate(s.d.mode+".httpsource", "Fetch(%s) through the HTTP source returned nothing although the endpoint served the record", name)
+		}
+		return nil, nil
+	}
+	if len(s.served) != 1 || !s.sameInfo(out, s.served[0]) {
+		s.d.r.Violate(s.d.mode+".httpsource", "Fetch(%s) through the HTTP source returned a record the endpoint did not serve", name)
+		call.failed = true
+		return nil, errors.New("harness: unexpected record")
+	}
+	call.recs = s.served
+	s.d.r.Logf(s.name, "Fetch(%s) over HTTP -> %s", name, s.served[0])
+	return out, nil
+}
+
+// ServeHTTP is the source's endpoint: GET /providers and /providers/<id>.
+func (s *simSource) ServeHTTP(w http.ResponseWriter, req *http.Request) {
+	s.handled = true
+	w.Header().Set("Content-Type", "application/json")
+	rest := strings.TrimPrefix(req.URL.Path, "/providers")
+	if rest == "" || rest == "/" {
+		var names []string
+		for n := range s.content {
+			names = append(names, n)
+		}
+		sort.Strings(names)
+		out := make([]*model.ProviderInfo, 0, len(names))
+		for _, n := range names {
+			s.served = append(s.served, s.content[n])
+			out = append(out, s.content[n].info)
+		}
+		json.NewEncoder(w).Encode(out)
+		return
+	}
+	pid, err := peer.Decode(strings.TrimPrefix(rest, "/"))
+	if err != nil {
+		w.WriteHeader(http.StatusBadRequest)
+		return
+	}
+	rec := s.content[s.d.names.Name(string(pid))]
+	if rec == nil {
+		w.WriteHeader(http.StatusNotFound)
+		w.Write(apierror.EncodeError(apierror.New(errors.New("provider not found"), http.StatusNotFound)))
+		return
+	}
+	s.served = []*recVer{rec}
+	json.NewEncoder(w).Encode(rec.info)
+}
+
+// httpPolicy turns the outcome drawn for the source call in progress into a
+// fault on the endpoint's response.
+func (d *pcDriver) httpPolicy(q *simkit.ReqRecord) simkit.FaultSpec {
+	for _, s := range d.srcs {
+		if s.name != q.Server || !s.curDir.fail {
+			continue
+		}
+		switch s.curDir.kind {
+		case 0:
+			return simkit.FaultSpec{Kind: simkit.FStatus, Code: 500}
+		case 1:
+			return simkit.FaultSpec{Kind: simkit.FStatus, Code: 503}
+		case 2:
+			return simkit.FaultSpec{Kind: simkit.FResetBefore}
+		case 3:
+			return simkit.FaultSpec{Kind: simkit.FResetMid, K: 10}
+		case 4:
+			return simkit.FaultSpec{Kind: simkit.FTruncate, K: 1 + d.r.Tape.Choose(40, "http.trunc")}
+		case 5:
+			d.stalledOpen++
+			return simkit.FaultSpec{Kind: simkit.FStall}
+		case 6:
+			return simkit.FaultSpec{Kind: simkit.FEmpty}
+		default:
+			return simkit.FaultSpec{Kind: simkit.FStatus, Code: 404}
+		}
+	}
+	return simkit.FaultSpec{}
 }
 
 // --- reference model -------------------------------------------------------
@@ -396,7 +562,10 @@ type pcDriver struct {
 	opSeq         int
 	clockMenu     []time.Duration
 	stopping      bool
-	errKinds      int // number of source error kinds in use
+	errKinds      int         // number of source error kinds in use
+	net           *simkit.Net // HTTP mode
+	stalledOpen   int
+	httpOpen      int // HTTP source calls in progress (also those of the automatic refresh)
 }
 
 func (d *pcDriver) newVer(prov string, t int) *recVer {
@@ -552,6 +721,12 @@ func (d *pcDriver) verByID(ver int) *recVer {
 }
 
 func pcSetup(r *simkit.Run, nsrc int, ttl, refreshIn time.Duration, preload bool, initial func(d *pcDriver)) *pcDriver {
+	return pcSetupMode(r, nsrc, ttl, refreshIn, preload, false, initial)
+}
+
+// pcSetupMode: with overHTTP the cache is given real pcache HTTP sources
+// whose endpoints are the gated sources behind the simulated network.
+func pcSetupMode(r *simkit.Run, nsrc int, ttl, refreshIn time.Duration, preload, overHTTP bool, initial func(d *pcDriver)) *pcDriver {
 	d := &pcDriver{r: r, names: simkit.NewNamer(), ttl: ttl, refreshIn: refreshIn, allVers: map[int]*recVer{}, errKinds: 5}
 	r.InstallHooks(d.names)
 	for i := 1; i <= 6; i++ {
@@ -563,6 +738,16 @@ func pcSetup(r *simkit.Run, nsrc int, ttl, refreshIn time.Duration, preload bool
 	for i := 0; i < nsrc; i++ {
 		s := &simSource{d: d, name: fmt.Sprintf("S%d", i+1), content: map[string]*recVer{}}
 		d.srcs = append(d.srcs, s)
+		if overHTTP {
+			if d.net == nil {
+				d.net = simkit.NewNet(r)
+				d.net.Policy = d.httpPolicy
+				d.errKinds = len(httpFaultNames)
+			}
+			host := fmt.Sprintf("s%d.providers.example:80", i+1)
+			d.net.AddServer(&simkit.Server{Name: s.name, Addr: host, Handler: s})
+			s.real = must(pcache.NewHTTPSource("http://"+host, &http.Client{Transport: d.net.Transport(), Timeout: pcHTTPTimeout}))
+		}
 		so = append(so, pcache.WithSource(s))
 	}
 	if initial != nil {
@@ -887,6 +1072,11 @@ func (d *pcDriver) drive(tasks []*pcTask, maxSteps int, allowClockInFlight bool)
 		if a := d.publishAction(p); a != nil {
 			return a
 		}
+		if p.Site == "net.req" && d.net != nil {
+			a := d.net.RequestAction(p)
+			a.Weight = 3
+			return a
+		}
 		if p.Site == "op" {
 			t := byName[p.Who]
 			return &simkit.Action{Name: "start op of " + p.Who, Weight: 3, Do: func() {
@@ -938,7 +1128,16 @@ func (d *pcDriver) drive(tasks []*pcTask, maxSteps int, allowClockInFlight bool)
 				}})
 			}
 		}
-		if len(fl) == 0 || allowClockInFlight {
+		if d.stalledOpen > 0 {
+			acts = append(acts, simkit.Action{Name: "the client of a stalled endpoint gives up", Weight: 3, Do: func() {
+				d.stalledOpen = 0
+				r.Advance(pcHTTPTimeout + time.Second)
+			}})
+		}
+		// no clock jumps while a request of the HTTP source is on the wire:
+		// it would run into the client's time limit, an outcome the endpoint
+		// faults already cover
+		if (len(fl) == 0 || allowClockInFlight) && d.httpOpen == 0 {
 			acts = append(acts, simkit.Action{Name: "advance clock", Weight: 1, Do: func() {
 				q := d.clockMenu[tp.Choose(len(d.clockMenu), "clock.q")]
 				r.Logf("~sched", "clock +%v", q)
@@ -994,6 +1193,13 @@ func (d *pcDriver) drive(tasks []*pcTask, maxSteps int, allowClockInFlight bool)
 func (d *pcDriver) teardown() {
 	d.stopping = true
 	d.r.PassThrough(true)
+	if d.net != nil {
+		defer func() {
+			d.net.Heal()
+			d.r.Advance(2 * time.Second)
+			d.r.Quiesce()
+		}()
+	}
 	for _, o := range d.ops {
 		o.cancel()
 	}
